@@ -53,7 +53,7 @@ def lossless(d):
 
 @st.composite
 def cases(draw, tier):
-    root = draw(st.sampled_from(["program", "program", "program", "program", "nn.Linear", "uu.Linear", "sequential"]))
+    root = draw(st.sampled_from(["program"] * 10 + ["nn.Linear", "uu.Linear", "uu.Linear", "sequential"]))
     c = dict(root=root, fwd=draw(fmt_st()), bwd=draw(fmt_st()), seed=draw(st.integers(0, 10**6)), via=draw(st.sampled_from(["simulate_format"] * 4 + ["simulate_fp8"])))
     if draw(st.integers(0, 4)) == 0:
         c["fwd"] = dict(name="E8M23", rounding=draw(st.sampled_from(["nearest", "stochastic"])), srbits=0)
